@@ -4,6 +4,18 @@ import json, os, sys
 HERE = os.path.dirname(os.path.abspath(__file__))
 
 CHECKS = {
+ "C05": dict(
+    technique="path-sensitive typestate {dirty,clean} over MIR, dominating-guard and who-may-call queries, cast census, sibling-predicate agreement",
+    design_ref="DESIGN.md §4 C05",
+    text="Decides for all CFG paths: pack_objects/basic_sort return true only when no call taking &mut Graph lies between the last "
+         "overflow query that reported none and the return; Graph::serialize is called only from dump_table under the true edge of "
+         "pack_objects() with no mutation in between and the false edge returns PackingFailed; write_offset narrows only through "
+         "u16::try_from / Uint24::checked_new (no `as` truncation, failure panics rather than defaulting); has_overflows and "
+         "find_overflows test identical normalised conditions. Does not decide that node positions equal final byte offsets, nor "
+         "duplication / splitting / promotion arithmetic (value level) -- the hook named in the property is not needed because "
+         "nothing is executed.",
+    note="Trusted: rustc MIR, fact dumper, explorer. The overflow predicate itself (max_value(len) < child.pos - parent.pos) is taken as the definition of 'fits'.",
+ ),
  "C07": dict(
     technique="effect/purity analysis over MIR: statics census, who-may-read a field, iterator-sink classification for hash-ordered containers, inter-procedural pointer-cast value flow",
     design_ref="DESIGN.md §4 C07",
